@@ -94,7 +94,18 @@ func (g *slotsGenState) seq() int {
 	}
 }
 
+// slotsSide: a generator of its own for the Reserve calls placed between the workflow steps (the receiver makes room for the next
+// datagram while packets are parked), so that the workflows themselves are the same with and without them
+var slotsSide *rng
+
+func slotsMaybeReserve(w *bufio.Writer) {
+	if slotsSide != nil && slotsSide.intn(6) == 0 {
+		fmt.Fprintf(w, "! reserve %d\n", slotsSide.pick(1, 64, 600, 1500, 5000, 70000))
+	}
+}
+
 func (g *slotsGenState) park(seq, n int) {
+	slotsMaybeReserve(g.w)
 	if n < 0 {
 		n = 0
 	}
@@ -139,6 +150,10 @@ func (g *slotsGenState) takeSome() {
 }
 
 func slotsGen(r *rng, maxops int, w *bufio.Writer) {
+	slotsSide = nil
+	if h := newRng(r.s ^ 0x7f4a7c159e3779b9); h.intn(3) == 0 {
+		slotsSide = h
+	}
 	if r.intn(5) == 0 {
 		slotsOffGen(r, maxops, w)
 		return
@@ -362,6 +377,18 @@ func slotsRun(script []string, w *bufio.Writer) {
 	}
 	for _, line := range script {
 		f := strings.Fields(line)
+		if f[0] == "reserve" {
+			// Reserve(n) on the buffer between two workflow steps (room for the next datagram): no operation of the slot
+			// workflow, nothing parked may change; noted for the reader of the trace only
+			if b != nil {
+				if guard(func() { b.Reserve(atoi(f[1])) }) {
+					fmt.Fprintf(w, "! %s\n< panic\n", line)
+					return
+				}
+				fmt.Fprintf(w, "? reserve %s\n", f[1])
+			}
+			continue
+		}
 		fmt.Fprintf(w, "! %s\n", line)
 		var out string
 		p := guard(func() {
